@@ -83,6 +83,9 @@ def apply_edits(text, edits, where, prov):
             continue
         find, repl, count = e["find"], e["replace"], e.get("count", 1)
         got = text.count(find)
+        if e.get("optional") and got == 0:
+            # the construct this shim is for is absent: nothing to route (the code then stands as it is)
+            continue
         if got != count:
             raise LostAnchor("%s: declared %s-site `%s` found %d times, expected %d" % (where, cls, find.strip()[:60], got, count))
         text = text.replace(find, repl)
@@ -672,12 +675,15 @@ def splice_fn(item_text_sig, item_body, spec, where, prov, with_goals, goal_inde
             raise LostAnchor("%s: loop %d is `%s`, declared `%s`" % (where, o, lp["kw"], ls["expect_kw"]))
         if lp["kw"] == "for" and ls.get("binder"):
             inserts.append((lp["in"][1], " " + ls["binder"] + ":", ("kw",), 0))
-        inv = "\n"
-        inv_chunks = [("\n    invariant\n", ("kw",))]
-        for c in ls.get("invariant", []):
-            if isinstance(c, str):
-                c = {"id": None, "text": c}
-            inv_chunks.append(("        " + c["text"].strip().rstrip(",") + ",\n", ("clause", "invariant", c.get("id"), c.get("props"))))
+        inv_chunks = [("\n", ("kw",))]
+        for kind in ("invariant_except_break", "invariant", "ensures"):
+            if not ls.get(kind):
+                continue
+            inv_chunks.append(("    %s\n" % kind, ("kw",)))
+            for c in ls.get(kind, []):
+                if isinstance(c, str):
+                    c = {"id": None, "text": c}
+                inv_chunks.append(("        " + c["text"].strip().rstrip(",") + ",\n", ("clause", "invariant", c.get("id"), c.get("props"))))
         if ls.get("decreases"):
             inv_chunks.append(("    decreases " + ls["decreases"] + "\n", ("kw",)))
         inserts.append((lp["open"], inv_chunks, None, 0))
@@ -960,7 +966,7 @@ class Unit:
             if "include" in blk:
                 self.include(em, blk["include"], blk.get("kind", "spec"))
             elif "raw" in blk:
-                em.emit(blk["raw"], {"kind": "glue"})
+                em.emit(blk["raw"], {"kind": blk.get("kind", "glue"), "file": "unit:" + self.name, "line": 0})
             elif "mod" in blk:
                 em.emit("pub mod %s {\n%s" % (blk["mod"], blk.get("uses", "use super::*;")), {"kind": "glue"})
                 for sub in blk.get("item", []):
@@ -979,7 +985,7 @@ class Unit:
         if "include" in sub:
             self.include(em, sub["include"], sub.get("kind", "spec"))
         elif "raw" in sub:
-            em.emit(sub["raw"], {"kind": "glue"})
+            em.emit(sub["raw"], {"kind": sub.get("kind", "glue"), "file": "unit:" + self.name, "line": 0})
         elif "import_from" in sub:
             home = tomllib.load(open(os.path.join(VERIF, "contracts", "units", sub["import_from"] + ".toml"), "rb"))
             def walk(blocks):
